@@ -15,6 +15,9 @@ import CLModel.Proofs.C18MLint
 import CLModel.Proofs.C18MCache
 import CLModel.Proofs.C18MStep
 import CLModel.Proofs.C18MObserver
+import CLModel.History.World
+import CLModel.Proofs.C18World
+import CLModel.Proofs.C18WorldDemo
 namespace C18
 open Hist P
 
@@ -543,6 +546,231 @@ example : actionOf (HistM.step (HistM.run S.init warmOps).1 (.cFilter 1 ⟨T "/l
     = some (.ok .ignore) := by decide +kernel
 
 end machine
+
+/-! ## Round 5: the file system is part of the state (model: CLModel/History/World.lean)
+
+`HistW.W` = the process (`HistM.S`) + the files (`fs : Path ↦ file contents | symbolic link`).  The operations that
+read take PATHS and read the world as it is NOW; `write` / `remove` / `rename` / `copy` / `symlink` and l10n-merge
+change it.  A cache keyed by a path (parsed reference files, decoded contents, `os.path.exists` answers, checkers)
+would be a component of the state that is indexed by `Path`: the theorems below say that the model — the
+transliteration of the code — has none, so such a cache in the code is a correspondence disagreement on a history
+that rewrites a path between two reads (`c18.wrun`). -/
+
+section world
+open HistM HistW C18M C18W
+
+/-- `out_independent_all` with the world explicit: in every reachable world the output of an operation is a
+    function of its arguments, of the CURRENT world (`look w.fs`: what is at each path now) and of the construction
+    data of the objects it names — `pureOutW`: read the paths now, then the cache-free, counter-free reference
+    semantics on the texts read.  Nothing that was read, compared, counted or cached before shows, in particular no
+    earlier contents of the same path. -/
+theorem out_independent_world (ep : EpEnv) (w : W) (h : HistW.Reachable ep w) (op : HistW.Op)
+    (hc : op.closedIn (look w.fs)) :
+    (HistW.step w op).2 = (pureOutW (look w.fs) w.s.view op).shift w.s.g.junkid w.s.g.heap.length :=
+  step_out_world w (reachable_invW ep w h) op hc
+
+/-- … hence two reachable worlds that hold the same files now (and in which the same objects are alive) return the
+    same result, whatever histories led to them. -/
+theorem out_same_in_any_two_worlds (ep ep' : EpEnv) (w w' : W) (h : HistW.Reachable ep w) (h' : HistW.Reachable ep' w')
+    (hl : look w.fs = look w'.fs) (hv : w.s.view = w'.s.view) (op : HistW.Op) (hc : op.closedIn (look w.fs)) :
+    ((HistW.step w op).2).shift w'.s.g.junkid w'.s.g.heap.length
+      = ((HistW.step w' op).2).shift w.s.g.junkid w.s.g.heap.length := by
+  rw [out_independent_world ep w h op hc, out_independent_world ep' w' h' op (hl ▸ hc), hv, hl, outW_shift_shift,
+    outW_shift_shift, Nat.add_comm w.s.g.junkid, Nat.add_comm w.s.g.heap.length]
+
+/-- an operation on files: its result does not even depend on the objects alive -/
+def readsFiles : HistW.Op → Bool
+  | .lift _ => false
+  | _ => true
+
+theorem pureOutW_view (l : Look) (v v' : View) (op : HistW.Op) (hp : readsFiles op = true) :
+    pureOutW l v op = pureOutW l v' op := by
+  cases op with
+  | lift o => simp [readsFiles] at hp
+  | lint f c r =>
+    simp only [pureOutW]
+    cases readAt l c with
+    | error e => rfl
+    | ok b => cases lintRef l r <;> rfl
+  | compare f r lp mg =>
+    simp only [pureOutW]
+    cases readAt l r with
+    | error e => rfl
+    | ok a =>
+      simp only
+      cases readAt l lp with
+      | error e => rfl
+      | ok b => cases mg <;> rfl
+  | readFile f p => simp only [pureOutW]; cases readAt l p <;> rfl
+  | _ => rfl
+
+/-- The oracle's statement, proved for the model: the result of an operation on files in ANY reachable world is the
+    result of the same operation in a FRESH interpreter started on the files as they are now (junk ids of parse
+    listings shifted by the counter). -/
+theorem out_equals_fresh_interpreter_on_current_files (ep ep' : EpEnv) (w : W) (h : HistW.Reachable ep w)
+    (op : HistW.Op) (hp : readsFiles op = true) (hc : op.closedIn (look w.fs)) :
+    (HistW.step w op).2
+      = ((HistW.step { s := { S.init with ep := ep' }, fs := w.fs } op).2).shift w.s.g.junkid w.s.g.heap.length := by
+  have hf := out_independent_world ep' { s := { S.init with ep := ep' }, fs := w.fs } (HistW.Reachable.init w.fs) op hc
+  rw [out_independent_world ep w h op hc, hf, outW_shift_shift,
+    pureOutW_view (look w.fs) w.s.view ({ S.init with ep := ep' } : S).view op hp]
+  simp [S.init]
+
+/-- No component of the process state is keyed by a path: the state after an operation is a function of the state
+    before and of the PATH-FREE operation `textOp` (texts read now; `HistM.Op` of a read carries no path) … -/
+theorem state_forgets_paths (w : W) (op : HistW.Op) :
+    (HistW.step w op).1.s = sAfter w.s (textOp (look w.fs) op) :=
+  step_s w op
+
+/-- … so the same contents under other paths, in another world, leave the process in the same state. -/
+theorem state_keyed_by_contents_only (w w' : W) (op op' : HistW.Op) (hs : w.s = w'.s)
+    (ht : textOp (look w.fs) op = textOp (look w'.fs) op') :
+    (HistW.step w op).1.s = (HistW.step w' op').1.s := by
+  rw [step_s, step_s, hs, ht]
+
+/-- frame: the file-system operations leave the process alone … -/
+theorem fs_ops_leave_process (w : W) (op : HistW.Op) (h : textOp (look w.fs) op = none) : (HistW.step w op).1.s = w.s := by
+  rw [step_s, h]; rfl
+
+/-- … and only `write` / `remove` / `rename` / `copy` / `symlink` and l10n-merge change the world: how the world
+    moves is a function of the world before and of the operation (`lookStep`). -/
+theorem world_moves_by_lookStep (ep : EpEnv) (w : W) (h : HistW.Reachable ep w) (op : HistW.Op)
+    (hc : op.closedIn (look w.fs)) :
+    look (HistW.step w op).1.fs = lookStep (look w.fs) op :=
+  look_step w (reachable_invW ep w h) op hc
+
+/-- reads (without merge file) leave every file as it is -/
+theorem reads_leave_world (w : W) (f : Fmt) (p q : Path) (r : Option Path) :
+    (HistW.step w (.readFile f p)).1.fs = w.fs ∧ (HistW.step w (.compare f p q none)).1.fs = w.fs ∧
+    (HistW.step w (.add f p)).1.fs = w.fs ∧ (HistW.step w (.lint f p r)).1.fs = w.fs := by
+  refine ⟨?_, ?_, ?_, ?_⟩
+  · simp only [HistW.step]; cases readAt (look w.fs) p <;> rfl
+  · simp only [HistW.step]
+    cases readAt (look w.fs) p with
+    | error e => rfl
+    | ok a => simp only; cases readAt (look w.fs) q <;> rfl
+  · simp only [HistW.step]; cases readAt (look w.fs) p <;> rfl
+  · simp only [HistW.step]
+    cases readAt (look w.fs) p with
+    | ok b => rfl
+    | error e => simp only; cases lintRef (look w.fs) r <;> rfl
+
+/-- Whole histories: two reachable worlds that hold the same files and the same live objects return the same
+    results for every history of closed operations (reads, writes, renames, links, merges interleaved). -/
+theorem run_independent_world (ep ep' : EpEnv) (w w' : W) (h : HistW.Reachable ep w) (h' : HistW.Reachable ep' w')
+    (hv : w.s.view = w'.s.view) (hl : look w.fs = look w'.fs) (d a : Nat) (hj : w.s.g.junkid = w'.s.g.junkid + d)
+    (hh : w.s.g.heap.length = w'.s.g.heap.length + a) (ops : List HistW.Op) (hc : ClosedRun (look w.fs) ops) :
+    (HistW.run w ops).2 = ((HistW.run w' ops).2).map (HistW.Out.shift d a) :=
+  run_out_world ops w w' d a (reachable_invW ep w h) (reachable_invW ep' w' h') hv hl hj hh hc
+
+/-- The seeded regression, as a theorem: a reference path that was compared before and whose contents have changed
+    since.  The second compare of the SAME paths returns the reference semantics of the NEW contents. -/
+theorem compare_after_rewrite (ep : EpEnv) (w : W) (h : HistW.Reachable ep w) (f : Fmt) (r lp : Path) (a' : Array Nat)
+    (hc : (HistW.Op.compare f r lp none).closedIn (lset (look w.fs) r (.file a'))) :
+    (HistW.step (HistW.step (HistW.step w (.compare f r lp none)).1 (.write r a')).1 (.compare f r lp none)).2
+      = (pureOutW (lset (look w.fs) r (.file a')) w.s.view (.compare f r lp none)).shift
+          (HistW.step (HistW.step w (.compare f r lp none)).1 (.write r a')).1.s.g.junkid
+          (HistW.step (HistW.step w (.compare f r lp none)).1 (.write r a')).1.s.g.heap.length := by
+  have h1 : HistW.Reachable ep (HistW.step w (.compare f r lp none)).1 := HistW.Reachable.step w _ h trivial
+  have h2 : HistW.Reachable ep (HistW.step (HistW.step w (.compare f r lp none)).1 (.write r a')).1 :=
+    HistW.Reachable.step _ _ h1 trivial
+  have hfs : look (HistW.step (HistW.step w (.compare f r lp none)).1 (.write r a')).1.fs
+      = lset (look w.fs) r (.file a') := by
+    have e1 : (HistW.step w (.compare f r lp none)).1.fs = w.fs := (reads_leave_world w f r lp none).2.1
+    show look (AR.dset (HistW.step w (.compare f r lp none)).1.fs r (.file a')) = _
+    rw [e1, look_dset]
+  rw [out_independent_world ep _ h2 _ (hfs ▸ hc), hfs]
+  exact congrArg (fun o => HistW.Out.shift _ _ o) (pureOutW_view _ _ _ _ rfl)
+
+/-! ### non-vacuity, and what a path-keyed cache would get wrong -/
+
+def pRef : Path := T "ref/a.ini"
+def pL10n : Path := T "l10n/a.ini"
+def pLink : Path := T "ref/link.ini"
+
+/-- (missing, obsolete, changed, unchanged) of a compare report -/
+def statsOf : HistW.Out → Option (Nat × Nat × Nat × Nat)
+  | .m (.base (.report (.ok (_, st)))) => some (st.missing, st.obsolete, st.changed, st.unchanged)
+  | _ => none
+
+/-- reference `a=1\nb=2\n`, localization `a=1\n` … -/
+def wA : W := (HistW.run {} [.write pRef refAB, .write pL10n refA1]).1
+/-- … compared once, then the reference is rewritten to `a=1\n` (a working copy is updated, a temp file reused) -/
+def wB : W := (HistW.run wA [.compare .ini pRef pL10n none, .write pRef refA1]).1
+
+/-- The two compares name the SAME two paths.  The first reports `b` missing, the second — after the rewrite —
+    nothing: an answer taken from a cache keyed by the reference path would be wrong by one missing string.
+    (`compare_after_rewrite` applies: `noJunkLikeA_A`.) -/
+theorem compare_sees_the_current_files :
+    statsOf (HistW.step wA (.compare .ini pRef pL10n none)).2 = some (1, 0, 0, 1) ∧
+    statsOf (HistW.step wB (.compare .ini pRef pL10n none)).2 = some (0, 0, 0, 1) := by
+  have hrA : readAt (look wA.fs) pRef = .ok refAB := by decide +kernel
+  have hlA : readAt (look wA.fs) pL10n = .ok refA1 := by decide +kernel
+  have hrB : readAt (look wB.fs) pRef = .ok refA1 := by decide +kernel
+  have hlB : readAt (look wB.fs) pL10n = .ok refA1 := by decide +kernel
+  refine ⟨?_, ?_⟩
+  · simp only [HistW.step, hrA, hlA]
+    show statsOf (.m (.base (Hist.step G.init (.compare .ini refAB refA1)).2)) = _
+    rw [cmp_AB_A]
+    rfl
+  · simp only [HistW.step, hrB, hlB]
+    show statsOf (.m (.base (Hist.step wB.s.g (.compare .ini refA1 refA1)).2)) = _
+    rw [report_independent wB.s.g .ini refA1 refA1 noJunkLikeA_A, cmp_A_A]
+    rfl
+
+/-- the hypothesis of `compare_after_rewrite` holds for that rewrite -/
+example : (HistW.Op.compare .ini pRef pL10n none).closedIn (lset (look wA.fs) pRef (.file refA1)) := by
+  have hr : readAt (lset (look wA.fs) pRef (.file refA1)) pRef = .ok refA1 := by decide +kernel
+  have hl : readAt (lset (look wA.fs) pRef (.file refA1)) pL10n = .ok refA1 := by decide +kernel
+  simp only [HistW.Op.closedIn, textOp, hr, hl, HistM.Op.closed, Hist.Op.closed]
+  exact noJunkLikeA_A
+
+def addedOf : HistW.Out → Option (Nat × Nat)
+  | .added n w => some (n, w)
+  | _ => none
+
+def lintCount : HistW.Out → Option Nat
+  | .m (.lint (.ok ms)) => some ms.length
+  | _ => none
+
+def unreadableOf : HistW.Out → Option (Side × RErr)
+  | .unreadable sd _ e => some (sd, e)
+  | _ => none
+
+/-- rewrite between two reads, swap of two paths, delete, a symbolic link that is followed, re-targeted, dangling, in a
+    cycle, the same contents under another path: `add` (strings and words of a file missing in the localization) and
+    `lint` with a reference report the files as they are at that moment -/
+def fileOps : List HistW.Op :=
+  [.write pRef (T "a=1\nb=2 3\n").toArray, .write pL10n (T "a=1\n").toArray,
+   .add .ini pRef,                                              -- 2 strings, 3 words
+   .lint .ini pL10n (some pRef),                                -- nothing to say
+   .write pRef (T "a=4\n").toArray,
+   .add .ini pRef,                                              -- 1 string, 1 word
+   .lint .ini pL10n (some pRef),                                -- "Changes to string require a new ID: a"
+   .rename pRef (T "tmp"), .rename pL10n pRef, .rename (T "tmp") pL10n,
+   .lint .ini pL10n (some pRef),                                -- swapped: still one warning
+   .add .ini pRef,
+   .remove pRef,
+   .add .ini pRef,                                              -- unreadable
+   .lint .ini pL10n (some pRef),                                -- `os.path.isfile(ref)` is False: no reference
+   .symlink pLink pL10n,
+   .add .ini pLink,                                             -- through the link: `a=4\n`
+   .write pL10n (T "a=4\nc=5 6 7\n").toArray,
+   .add .ini pLink,                                             -- the link's target was rewritten
+   .symlink pLink (T "nowhere"),
+   .add .ini pLink,                                             -- dangling
+   .symlink (T "nowhere") pLink,
+   .add .ini pLink,                                             -- cycle
+   .copy pL10n pRef,
+   .add .ini pRef]                                              -- the same contents under another path
+
+theorem reads_see_the_current_files :
+    ((HistW.run {} fileOps).2.filterMap addedOf) = [(2, 3), (1, 1), (1, 1), (1, 1), (2, 4), (2, 4)] ∧
+    ((HistW.run {} fileOps).2.filterMap lintCount) = [0, 1, 1, 0] ∧
+    ((HistW.run {} fileOps).2.filterMap unreadableOf) = [(.ref, .enoent), (.ref, .enoent), (.ref, .eloop)] := by
+  decide +kernel
+
+end world
 
 /-! ## `multi_file_union` for the Observer's aggregation (C10 models `ObsM.Obs`, `TreeM.Tree`) -/
 
